@@ -8,7 +8,10 @@
    the outer variables the body assigns (for_up; for_down for i = a, a-1, ..., b); an error return
    is [Err], the k-th error made in function f (errors.New / fmt.Errorf without %w, in source order)
    is [e_at f k], fmt.Errorf with %w keeps the class of the error it wraps (ret_err).
-   Pointer-typed fields and slice elements are options (nil = None); maps are lookup functions.
+   Pointer-typed fields and slice elements are options (nil = None); a map is the list of its assignments,
+   latest first (m[k] = v puts (k, v) in front, a lookup finds the first entry of the key); a slice that the code
+   tests against nil is an option (slice_of: its elements, none for nil); interface values of a tool
+   (tool.BaseTool seen as tool.InvokableTool / tool.StreamableTool) are the tool itself, or nil.
    context.Context is reduced to what the tools node stores in it: the tool call id. *)
 From Eino Require Import Base.Util Model.Tools Model.ToolsPar.
 Local Open Scope string_scope.
@@ -41,7 +44,11 @@ Definition for_down {S} (a b : Z) (body : Z -> S -> res S) (st : S) : res S :=
   for_down_n (Z.to_nat (a - b + 1)) a body st.
 
 Definition is_nil {A} (o : option A) : bool := match o with None => true | Some _ => false end.
-Definition map_get {A} (m : string -> option A) (k : string) : option A := m k.
+Definition gomap (A : Type) : Type := list (string * A).
+Definition map_empty {A} : gomap A := [].
+Definition map_get {A} (m : gomap A) (k : string) : option A := alist_get k m.
+Definition map_set {A} (m : gomap A) (k : string) (v : A) : gomap A := (k, v) :: m.
+Definition slice_of {A} (o : option (list A)) : list A := match o with Some l => l | None => [] end.
 
 (* a call of a function value (nil: the call panics) *)
 Definition call_func3 {A B C} (f : option (A -> B -> C -> tres)) (a : A) (b : B) (c : C) : tres :=
@@ -51,6 +58,8 @@ Definition call_func3 {A B C} (f : option (A -> B -> C -> tres)) (a : A) (b : B)
 Definition e_at (fn : string) (k : nat) : N :=
   if String.eqb fn "genToolCallTasks" then
     match k with 0%nat => E_ROLE | 1%nat => E_NOCALL | 2%nat => E_UNKNOWN | _ => 0%N end
+  else if String.eqb fn "convTools" then
+    match k with 0%nat => E_NOTRUNNABLE | _ => 0%N end
   else 0%N.
 (* return nil, fmt.Errorf("...%w...", e) *)
 Definition ret_err {A} (e : option N) : res A := match e with Some c => Err c | None => Err 0%N end.
@@ -70,6 +79,10 @@ Record Message : Type := mk_Message { Message_Role : string; Message_ToolCalls :
 Definition schema_Assistant : string := "assistant".
 (* a tool message: content, tool call id *)
 Definition mk_tool_message (content id : string) : tmsg := (content, id).
+
+(* schema.ToolInfo: the field the tools node reads *)
+Record ToolInfo : Type := mk_ToolInfo { ToolInfo_Name : string }.
+Definition components_ComponentOfTool : unit := tt.
 
 (* a tool's output stream: its chunks and the error item it ends with, if any *)
 Definition SR : Type := (list string * option N)%type.
@@ -92,13 +105,24 @@ Section Types.
   Definition set_toolsNodeOptions_ToolList (o : toolsNodeOptions) v := mk_toolsNodeOptions (toolsNodeOptions_ToolOptions o) v.
 
   Record toolsTuple : Type := mk_toolsTuple {
-    toolsTuple_indexes : string -> option Z;
+    toolsTuple_indexes : gomap Z;
     toolsTuple_meta : list (option META);
     toolsTuple_rps : list (option RP) }.
+  Definition zero_toolsTuple : toolsTuple := mk_toolsTuple [] [] [].
+  Definition set_toolsTuple_indexes (t : toolsTuple) v := mk_toolsTuple v (toolsTuple_meta t) (toolsTuple_rps t).
+  Definition set_toolsTuple_meta (t : toolsTuple) v := mk_toolsTuple (toolsTuple_indexes t) v (toolsTuple_rps t).
+  Definition set_toolsTuple_rps (t : toolsTuple) v := mk_toolsTuple (toolsTuple_indexes t) (toolsTuple_meta t) v.
 
   Record ToolsNode : Type := mk_ToolsNode {
     ToolsNode_tuple : toolsTuple;
     ToolsNode_unknownToolHandler : option (CTX -> string -> string -> tres) }.
+  Definition zero_ToolsNode : ToolsNode := mk_ToolsNode zero_toolsTuple None.
+  Definition set_ToolsNode_tuple (n : ToolsNode) v := mk_ToolsNode v (ToolsNode_unknownToolHandler n).
+  Definition set_ToolsNode_unknownToolHandler (n : ToolsNode) v := mk_ToolsNode (ToolsNode_tuple n) v.
+
+  Record ToolsNodeConfig : Type := mk_ToolsNodeConfig {
+    ToolsNodeConfig_Tools : list BT;
+    ToolsNodeConfig_UnknownToolsHandler : option (CTX -> string -> string -> tres) }.
 
   Record toolCallTask : Type := mk_toolCallTask {
     toolCallTask_r : option RP;
@@ -138,6 +162,16 @@ Arguments mk_toolsTuple {META RP} _ _ _.
 Arguments toolsTuple_indexes {META RP} _.
 Arguments toolsTuple_meta {META RP} _.
 Arguments toolsTuple_rps {META RP} _.
+Arguments zero_toolsTuple {META RP}.
+Arguments set_toolsTuple_indexes {META RP} _ _.
+Arguments set_toolsTuple_meta {META RP} _ _.
+Arguments set_toolsTuple_rps {META RP} _ _.
+Arguments zero_ToolsNode {META RP}.
+Arguments set_ToolsNode_tuple {META RP} _ _.
+Arguments set_ToolsNode_unknownToolHandler {META RP} _ _.
+Arguments mk_ToolsNodeConfig {BT} _ _.
+Arguments ToolsNodeConfig_Tools {BT} _.
+Arguments ToolsNodeConfig_UnknownToolsHandler {BT} _.
 Arguments mk_ToolsNode {META RP} _ _.
 Arguments ToolsNode_tuple {META RP} _.
 Arguments ToolsNode_unknownToolHandler {META RP} _.
